@@ -3,377 +3,35 @@ from __future__ import annotations
 
 import ast
 
-from sa.astx import NotConst, call_attr, call_name, const_eval, lin_expect, lincmp, src, walk_local
-from sa.domains import TCHAR, VCHAR, fmt_set, loop_reject_set, regex_class
+from sa.domains import TCHAR, VCHAR, fmt_set
 from sa.selftest import Mutant, Silent
 from sa.source import AnalysisError
-from sa.props._lib_f import (assign_sites, call_sites, catches_everything, class_functions, cmp_polarity, enclosing_try_handlers,
-                             from_here, guarded_eq, InterpError, interpret, is_self_attr, named_calls, none_guard, param_names, truth_guard)
+from sa.props._lib_f import (InterpError, MDeferred, MExc, MFailure, ModelRaised, NullLogger, RepoObject, World, swallowing_env)
 
 PROPERTY = "C24"
 P = "web/_newclient.py"
 A = "web/_abnf.py"
 HH = "web/http_headers.py"
-TECHNIQUE = "byte-set evaluation of validators + provenance/dominance at the write sinks"
+Q = "twisted.web._newclient."
+TECHNIQUE = "finite-domain interpretation of the request writer against byte-level oracles"
 EXPLANATION = (
-    "Decides: (a) _istoken rejects exactly the non-tchar bytes and the empty string, _VALID_URI accepts exactly 1*VCHAR with \\A..\\Z anchors, and "
-    "both _ensureValid* return only on acceptance and raise ValueError otherwise; (b) at the single transport write of Request._writeHeaders every "
-    "element is a constant ending in CRLF, a validator result (method, target), a sanitised Headers value or the numeric Content-Length line, the "
-    "Host-count test and the validators run before any write, and each _writeTo* writes the head before touching the producer and pairs the framing "
-    "header with its encoder (chunked <-> ChunkedEncoder, Content-Length <-> LengthEnforcingConsumer) chosen by the UNKNOWN_LENGTH test; writeTo and its four helpers are interpreted together over (caller headers) x (no body / known / unknown length) x method and the head written must announce exactly the framing of the encoder the body goes through; (c) "
-    "ChunkedEncoder emits `hex(len) CRLF data CRLF`, never encodes an empty write (F24, fixed), writes the zero chunk exactly once in "
-    "unregisterProducer and never on the error path, and refuses writes after the end; (d) LengthEnforcingConsumer forwards exactly when "
-    "len <= remaining, decrements with the forward, reports excess and shortfall. Not decided: parse-back by an independent parser."
+    "Every clause is decided by interpreting the repository's own functions (whitelisted evaluator over the AST; classes become model objects whose methods are "
+    "the class's functions, nested functions are closures, Deferred/transport/producer are synchronous models; nothing is imported or executed) and comparing "
+    "the bytes written with an oracle, so the verdict does not depend on how the code is spelled: (a) _istoken / _ensureValidMethod / _ensureValidURI on every "
+    "single byte, the empty string and newline-terminated values: accepted set == tchar resp. VCHAR, refusal == ValueError, Request() refuses at construction; "
+    "(b) Headers stores values without CR/LF and refuses non-token names; (c) Request._writeHeaders over (persistent) x (framing line) x (header sets): the head is "
+    "exactly request-line + the expected header lines + blank line, and with zero/two Host headers or a method/target made invalid after construction it raises "
+    "and NOTHING has been written; (d) writeTo over (caller headers) x (no body / known / unknown length) x method: the head announces exactly the framing of the "
+    "encoder the body goes through; (e) scenarios through the body encoders: chunked b'ab', b'', b'cd' -> 2 CRLF ab CRLF 2 CRLF cd CRLF 0 CRLF CRLF exactly once "
+    "(empty write not encoded: F24, fixed), no terminator when the producer fails, writes after the end refused; Content-Length: exact / short / excess / late "
+    "writes give success / WrongBodyLength / WrongBodyLength with the producer stopped and no excess byte forwarded / ExcessWrite. Not decided: parse-back by an "
+    "independent parser for arbitrary inputs."
 )
-ASSUMPTIONS = ["header names/values reach the wire only through twisted.web.http_headers.Headers (checked: stored values pass _sanitizeLinearWhitespace, names _istoken)"]
+ASSUMPTIONS = ["Deferred, transports and body producers behave like the synchronous models in sa/props/_lib_f.py (callbacks run in order, a result fires once)",
+               "header names/values reach the wire only through twisted.web.http_headers.Headers"]
 
 
-def _bytes_const(node):
-    try:
-        v = const_eval(node)
-    except NotConst:
-        return None
-    return v if isinstance(v, bytes) else None
-
-
-def check(ctx):
-    with ctx.section("validators"):
-        _validators(ctx)
-    with ctx.section("headers-store"):
-        _headers_store(ctx)
-    with ctx.section("write-headers"):
-        _write_headers(ctx)
-    with ctx.section("write-to"):
-        _write_to(ctx)
-    with ctx.section("framing-agreement"):
-        _framing_agreement(ctx)
-    with ctx.section("chunked"):
-        _chunked(ctx)
-    with ctx.section("length"):
-        _length(ctx)
-
-
-# ---- (a) validators -----------------------------------------------------------------------------
-def _validators(ctx):
-    f = ctx.func(A, "_istoken")
-    q = "twisted.web._abnf._istoken"
-    it, rej, test = loop_reject_set(f)
-    acc = set(range(256)) - rej
-    ctx.check(acc == TCHAR, "validator/token-set", q, f"accepted bytes differ from RFC 9110 tchar: extra {fmt_set(acc - TCHAR)}, missing {fmt_set(TCHAR - acc)}")
-    ctx.check(it == param_names(f)[0], "validator/token-set", q + " | iterates its argument", "the loop does not iterate over the argument")
-    g = ctx.cfg(f)
-    rets = g.ids(lambda x: x.kind == "stmt" and isinstance(x.ast, ast.Return))
-    finals = [r for r in rets if not (isinstance(g.node(r).ast.value, ast.Constant) and g.node(r).ast.value.value is False)]
-    ok = bool(finals)
-    for r in finals:
-        v = g.node(r).ast.value
-        p = param_names(f)[0]
-        try:
-            ok = ok and (const_eval(v, {p: b""}) is False or const_eval(v, {p: b""}) == 0) and bool(const_eval(v, {p: b"a"}))
-        except NotConst:
-            ok = False
-    ctx.check(ok, "validator/token-nonempty", q, "the empty string is accepted as a token (an empty method would be written)")
-
-    mod = ctx.mod(P)
-    for name, what in (("_ensureValidMethod", "_istoken"), ("_ensureValidURI", "_VALID_URI.")):
-        f = ctx.func(P, name)
-        g = ctx.cfg(f)
-        q = "twisted.web._newclient." + name
-        p = param_names(f)[0]
-        rets = g.ids(lambda x: x.kind == "stmt" and isinstance(x.ast, ast.Return))
-        ctx.check(bool(rets), "validator/returns-only-if-valid", q, "the validator never returns its argument")
-        for r in rets:
-            gs = [(g.node(t).ast, lab) for t, lab in g.edge_guards(r)]
-            ok = False
-            for e, lab in gs:
-                if isinstance(e, ast.Call) and lab == "T" and [src(a) for a in e.args] == [p]:
-                    cn = call_name(e) or ""
-                    if name == "_ensureValidMethod" and cn == "_istoken":
-                        ok = True
-                    if name == "_ensureValidURI" and cn in ("_VALID_URI.match", "_VALID_URI.fullmatch"):
-                        ok = True
-            ctx.check(ok and src(g.node(r).ast.value) == p, "validator/returns-only-if-valid", ctx.construct(q, g.node(r).ast),
-                      "the validator returns without the value having been accepted by the token / URI test")
-        raises = g.ids(lambda x: x.kind == "stmt" and isinstance(x.ast, ast.Raise))
-        ctx.check(len(raises) >= 1 and all("ValueError" in src(g.node(r).ast) for r in raises), "validator/raises-valueerror", q,
-                  "an invalid value is not refused with ValueError")
-        w = g.path([g.entry], [g.exit], avoid=rets)
-        ctx.check(w is None, "validator/returns-only-if-valid", q + " | no implicit return", "the validator can fall off the end (returns None) for an invalid value",
-                  witness=g.describe(w))
-    pat = mod.module_assign("_VALID_URI")
-    q = "twisted.web._newclient._VALID_URI"
-    ok = isinstance(pat, ast.Call) and call_name(pat) == "re.compile" and len(pat.args) == 1 and not pat.keywords
-    ctx.need(ok, "_VALID_URI = re.compile(<pattern>) without flags")
-    p = _bytes_const(pat.args[0])
-    ctx.need(p is not None, "_VALID_URI pattern constant")
-    rc = regex_class(p)
-    ctx.check(rc["set"] == VCHAR, "validator/uri-set", q, f"accepted bytes differ from VCHAR: extra {fmt_set(rc['set'] - VCHAR)}, missing {fmt_set(VCHAR - rc['set'])}")
-    ctx.check(rc["anchored_start"] and rc["anchored_end"] == "Z", "validator/uri-anchors", q,
-              "the pattern is not anchored with \\A ... \\Z ('$' also matches before a trailing newline: b'/\\n' would be written into the request line)")
-    ctx.check(rc["min"] is not None and rc["min"] >= 1 and rc["max"] is None, "validator/uri-anchors", q + " | repetition", "the pattern accepts the empty target or bounds the length")
-
-
-# ---- Headers storage (names/values that later reach the sink) ------------------------------------
-def _headers_store(ctx):
-    f = ctx.func(HH, "_sanitizeLinearWhitespace")
-    q = "twisted.web.http_headers._sanitizeLinearWhitespace"
-    rets = [s for s in walk_local(f) if isinstance(s, ast.Return)]
-    p = param_names(f)[0]
-    ok = len(rets) == 1 and isinstance(rets[0].value, ast.Call) and call_attr(rets[0].value) == "join" and \
-        _bytes_const(rets[0].value.func.value) is not None and b"\r" not in _bytes_const(rets[0].value.func.value) and b"\n" not in _bytes_const(rets[0].value.func.value) and \
-        len(rets[0].value.args) == 1 and src(rets[0].value.args[0]) == f"{p}.splitlines()"
-    ctx.check(ok, "headers/sanitiser", q, "the header value sanitiser no longer joins value.splitlines() with a CR/LF-free separator")
-    for name in ("setRawHeaders", "addRawHeader"):
-        f = ctx.func(HH, "Headers." + name)
-        q = "twisted.web.http_headers.Headers." + name
-        appends = [c for c in walk_local(f) if isinstance(c, ast.Call) and call_attr(c) == "append"]
-        ctx.check(len(appends) == 1, "headers/values-sanitised", q, f"{len(appends)} value append sites (one expected)")
-        for c in appends:
-            a = c.args[0] if c.args else None
-            ctx.check(isinstance(a, ast.Call) and call_name(a) == "_sanitizeLinearWhitespace", "headers/values-sanitised", ctx.construct(q, c),
-                      "a header value is stored without _sanitizeLinearWhitespace (CR/LF reaches the request head)")
-        stores = [s for s in walk_local(f) if isinstance(s, ast.Assign) and any(isinstance(t, ast.Subscript) and src(t.value) == "self._rawHeaders" for t in s.targets)]
-        for s in stores:
-            lst = src(s.value)
-            ok = any(isinstance(c.func, ast.Attribute) and src(c.func.value) == lst for c in appends) and \
-                any(isinstance(x, ast.AnnAssign) and src(x.target) == lst and isinstance(x.value, ast.List) and not x.value.elts or
-                    isinstance(x, ast.Assign) and src(x.targets[0]) == lst and isinstance(x.value, ast.List) and not x.value.elts for x in walk_local(f))
-            ctx.check(ok, "headers/values-sanitised", ctx.construct(q, s), "the stored value list is not the locally built list of sanitised values")
-        enc = [c for c in walk_local(f) if isinstance(c, ast.Call) and call_name(c) == "_nameEncoder.encode"]
-        ctx.check(len(enc) == 1 and [src(a) for a in enc[0].args] == [param_names(f)[1]], "headers/names-validated", q, "the header name is not passed through _nameEncoder.encode")
-    f = ctx.func(HH, "_NameEncoder.encode")
-    g = ctx.cfg(f)
-    q = "twisted.web.http_headers._NameEncoder.encode"
-    raises = g.ids(lambda x: x.kind == "stmt" and isinstance(x.ast, ast.Raise))
-    tok = [t for t in g.ids(lambda x: x.kind == "test") if isinstance(g.node(t).ast, ast.Call) and call_name(g.node(t).ast) == "_istoken"]
-    ctx.check(len(tok) == 1 and any((tok[0], "F") in g.edge_guards(r) for r in raises), "headers/names-validated", q, "a non-token header name is not refused")
-    for t in tok:
-        # every store into the cache and every computed return happens on the token branch
-        for n, st in assign_sites(g, lambda x: isinstance(x, ast.Subscript) and src(x.value) == "self._canonicalHeaderCache"):
-            ctx.check((t, "T") in g.edge_guards(n), "headers/names-validated", ctx.construct(q, st), "a name is cached as canonical without having passed _istoken")
-
-
-# ---- (b) the sink -----------------------------------------------------------------------------------
-FRAMING_CONSTS = {b"Transfer-Encoding: chunked\r\n", b"Content-Length: 0\r\n"}
-
-
-def _classify_line(node, f):
-    """provenance class of one element appended to requestLines"""
-    b = _bytes_const(node)
-    if b is not None:
-        return "const" if b.endswith(b"\r\n") and b.count(b"\n") == 1 else "BAD-const"
-    if isinstance(node, ast.Name) and node.id in param_names(f):
-        return "param:" + node.id
-    if isinstance(node, ast.Call) and call_attr(node) == "join" and _bytes_const(node.func.value) == b" " and len(node.args) == 1 and isinstance(node.args[0], (ast.List, ast.Tuple)):
-        return "request-line"
-    return "BAD:" + src(node)[:60]
-
-
-def _write_headers(ctx):
-    f = ctx.func(P, "Request._writeHeaders")
-    g = ctx.cfg(f)
-    q = "twisted.web._newclient.Request._writeHeaders"
-    tp = param_names(f)[1]
-    writes = call_sites(g, lambda c: isinstance(c.func, ast.Attribute) and src(c.func.value) == tp)
-    ctx.check(len(writes) == 1 and writes[0][1].func.attr == "writeSequence", "sink/single-write", q,
-              f"the request head is written by {len(writes)} transport calls (one writeSequence at the end expected): a refused request may be partly written")
-    if not writes:
-        return
-    wn, wc = writes[0]
-    lst = src(wc.args[0]) if wc.args else "?"
-    # what can raise must come before the write
-    vals = named_calls(g, "_ensureValidMethod", "_ensureValidURI")
-    raises = g.ids(lambda x: x.kind == "stmt" and isinstance(x.ast, ast.Raise))
-    for n in [n for n, c in vals] + raises:
-        w = g.path([wn], [n], strict=True)
-        ctx.check(w is None, "sink/refused-before-write", ctx.construct(q, g.node(n).ast), "a refusal can happen after bytes were written", witness=g.describe(w))
-    w = g.must_precede([n for n, c in vals if call_name(c) == "_ensureValidMethod"], [wn], exc=False) or \
-        g.must_precede([n for n, c in vals if call_name(c) == "_ensureValidURI"], [wn], exc=False)
-    ctx.check(len(vals) >= 2 and w is None, "sink/validated-at-sink", q, "method and target are not both re-validated before the write", witness=g.describe(w))
-    # host test
-    host = [r for r in raises if "BadHeaders" in src(g.node(r).ast)]
-    ok = False
-    for r in host:
-        for t, lab in g.edge_guards(r):
-            lc = g.node(t).ast
-            if isinstance(lc, ast.Compare) and len(lc.ops) == 1 and isinstance(lc.ops[0], (ast.NotEq, ast.Eq)) and src(lc.left).startswith("len(") and src(lc.comparators[0]) == "1":
-                if (isinstance(lc.ops[0], ast.NotEq)) == (lab == "T"):
-                    ok = (t, "F" if lab == "T" else "T") in g.edge_guards(wn)
-    ctx.check(ok, "sink/exactly-one-host", q, "the request is written without exactly one Host header having been established first")
-    # provenance of every element
-    n_el = 0
-    for c in [c for n, c in call_sites(g, lambda c: isinstance(c.func, ast.Attribute) and src(c.func.value) == lst and c.func.attr in ("append", "extend", "insert"))]:
-        n_el += 1
-        a = c.args[-1]
-        if c.func.attr == "append":
-            k = _classify_line(a, f)
-            if k == "request-line":
-                parts = a.args[0].elts
-                kinds = []
-                for p_ in parts:
-                    if isinstance(p_, ast.Call) and call_name(p_) == "_ensureValidMethod" and [src(x) for x in p_.args] == ["self.method"]:
-                        kinds.append("method")
-                    elif isinstance(p_, ast.Call) and call_name(p_) == "_ensureValidURI" and [src(x) for x in p_.args] == ["self.uri"]:
-                        kinds.append("uri")
-                    elif _bytes_const(p_) is not None:
-                        kinds.append(_bytes_const(p_))
-                    else:
-                        kinds.append("BAD:" + src(p_))
-                ctx.check(kinds == ["method", "uri", b"HTTP/1.1\r\n"], "sink/request-line", ctx.construct(q, c),
-                          f"the request line is not `validated-method SP validated-target SP HTTP/1.1 CRLF`: {kinds}")
-            elif k.startswith("param:"):
-                nid = g.ids_of(c)[0]
-                ctx.check(none_guard(g, nid, k[6:], False), "sink/provenance", ctx.construct(q, c), "the framing header parameter may be None when appended")
-                extra = []
-                for t, lab in g.edge_guards(nid):
-                    e = g.node(t).ast
-                    if cmp_polarity(e, k[6:], "None") is not None or src(e) == k[6:]:
-                        continue
-                    if isinstance(e, ast.Compare) and src(e.left).startswith("len(") and src(e.comparators[0]) == "1":
-                        continue          # the exactly-one-Host test
-                    if any(isinstance(x, ast.Name) and x.id == k[6:] for x in ast.walk(e)):
-                        continue          # a test on the framing line itself (e.g. "is it a duplicate of the caller's"): judged by framing/head-matches-encoder
-                    extra.append(src(e))
-                ctx.check(not extra, "framing/line-unconditional", ctx.construct(q, c),
-                          f"whether the framing line chosen by the caller is written also depends on {extra}: the caller has already committed to the matching body encoder, "
-                          "so the head may announce a different framing than the body uses")
-            else:
-                ctx.check(k == "const", "sink/provenance", ctx.construct(q, c), f"an element of unknown provenance / not one CRLF-terminated line is written: {k}")
-        elif c.func.attr == "extend":
-            ok = False
-            if isinstance(a, (ast.ListComp, ast.GeneratorExp)) and len(a.generators) == 1:
-                elt = a.elt
-                terms = []
-                while isinstance(elt, ast.BinOp) and isinstance(elt.op, ast.Add):
-                    terms.insert(0, elt.right)
-                    elt = elt.left
-                terms.insert(0, elt)
-                loop = [s for s in walk_local(f) if isinstance(s, ast.For) and any(x is c for x in ast.walk(s))]
-                if len(terms) == 4 and loop and src(loop[-1].iter) == "self.headers.getAllRawHeaders()" and isinstance(loop[-1].target, ast.Tuple):
-                    nm, vs = [src(e) for e in loop[-1].target.elts]
-                    ok = (src(terms[0]) == nm and _bytes_const(terms[1]) == b": " and src(terms[2]) == src(a.generators[0].target)
-                          and src(a.generators[0].iter) == vs and _bytes_const(terms[3]) == b"\r\n" and not a.generators[0].ifs)
-            ctx.check(ok, "sink/header-lines", ctx.construct(q, c), "header lines are not `name \": \" value CRLF` for every value of self.headers.getAllRawHeaders()")
-        else:
-            ctx.violation("sink/provenance", ctx.construct(q, c), "request lines inserted out of order")
-    ctx.floor("sink/provenance", n_el, 4)
-    # the list is created empty here, and the blank line is the last element before the write
-    last = [n for n, c in call_sites(g, lambda c: isinstance(c.func, ast.Attribute) and src(c.func.value) == lst and c.func.attr == "append" and _bytes_const(c.args[0]) == b"\r\n")]
-    others = [n for n, c in call_sites(g, lambda c: isinstance(c.func, ast.Attribute) and src(c.func.value) == lst and c.func.attr in ("append", "extend")) if n not in last]
-    w = g.must_precede(last, [wn], exc=False)
-    w2 = g.path(last, others, strict=True)
-    ctx.check(bool(last) and w is None and w2 is None, "sink/head-terminated", q, "the head is not terminated by exactly one final empty line", witness=g.describe(w or w2))
-    first = [n for n, c in call_sites(g, lambda c: isinstance(c.func, ast.Attribute) and src(c.func.value) == lst and c.func.attr == "append" and _classify_line(c.args[0], f) == "request-line")]
-    w = g.must_precede(first, others, exc=False) if first else [g.entry]
-    init = [st for n, st in assign_sites(g, lambda x: src(x) == lst) if isinstance(st.value, ast.List) and not st.value.elts]
-    ctx.check(w is None and len(init) == 1, "sink/request-line", q + " | first", "the request line is not the first element of a fresh list", witness=g.describe(w) if w else "")
-    # persistent -> Connection: close
-    cc = [n for n, c in call_sites(g, lambda c: isinstance(c.func, ast.Attribute) and src(c.func.value) == lst and c.func.attr == "append" and _bytes_const(c.args[0]) == b"Connection: close\r\n")]
-    ctx.check(len(cc) == 1 and truth_guard(g, cc[0], "self.persistent", False), "sink/connection-close", q, "`Connection: close` is not sent exactly for non-persistent requests")
-
-    # every caller passes an acceptable framing header
-    mod = ctx.mod(P)
-    ncall = 0
-    for qn, fn in class_functions(mod, "Request"):
-        for c in walk_local(fn):
-            if isinstance(c, ast.Call) and call_name(c) == "self._writeHeaders":
-                ncall += 1
-                a = c.args[1] if len(c.args) > 1 else None
-                b = _bytes_const(a) if a is not None else None
-                ok = a is not None and (src(a) == "None" or b in FRAMING_CONSTS or
-                                        (isinstance(a, ast.Call) and call_name(a) == "networkString" and isinstance(a.args[0], ast.BinOp) and isinstance(a.args[0].op, ast.Mod)
-                                         and isinstance(a.args[0].left, ast.Constant) and a.args[0].left.value == "Content-Length: %d\r\n"
-                                         and src(a.args[0].right) in ("(self.bodyProducer.length,)", "self.bodyProducer.length")))
-                ctx.check(ok, "sink/framing-header", ctx.construct("twisted.web._newclient." + qn, c),
-                          "the framing header handed to _writeHeaders is not None, a constant framing line or the numeric Content-Length line")
-    ctx.floor("sink/framing-header", ncall, 4)
-    # __init__ validates
-    f = ctx.func(P, "Request.__init__")
-    for attr, val in (("method", "_ensureValidMethod"), ("uri", "_ensureValidURI")):
-        sts = [s for s in walk_local(f) if isinstance(s, ast.Assign) and any(is_self_attr(t, attr) for t in s.targets)]
-        ok = len(sts) == 1 and isinstance(sts[0].value, ast.Call) and call_name(sts[0].value) == val and [src(a) for a in sts[0].value.args] == [attr]
-        ctx.check(ok, "sink/validated-at-construction", f"twisted.web._newclient.Request.__init__ | self.{attr}", f"self.{attr} is stored without {val}")
-
-
-def _write_to(ctx):
-    Q = "twisted.web._newclient.Request."
-    f = ctx.func(P, "Request.writeTo")
-    g = ctx.cfg(f)
-    q = Q + "writeTo"
-    ch = [n for n, c in named_calls(g, "self._writeToBodyProducerChunked")]
-    cl = [n for n, c in named_calls(g, "self._writeToBodyProducerContentLength")]
-    ctx.check(len(ch) == 1 and len(cl) == 1, "framing/choice", q, "writeTo does not have exactly one chunked and one Content-Length branch")
-    for n in ch:
-        ctx.check(guarded_eq(g, n, "self.bodyProducer.length", "UNKNOWN_LENGTH", True) and none_guard(g, n, "self.bodyProducer", False), "framing/choice",
-                  ctx.construct(q, g.node(n).ast), "chunked framing is not chosen exactly for a body of unknown length")
-    for n in cl:
-        ctx.check(guarded_eq(g, n, "self.bodyProducer.length", "UNKNOWN_LENGTH", False) and none_guard(g, n, "self.bodyProducer", False), "framing/choice",
-                  ctx.construct(q, g.node(n).ast), "Content-Length framing is not chosen exactly for a body of known length")
-    nob = [n for n, c in named_calls(g, "self._writeHeaders", "self._writeToEmptyBodyContentLength")]
-    ctx.check(len(nob) == 2 and all(none_guard(g, n, "self.bodyProducer", True) for n in nob), "framing/choice", q + " | no body",
-              "the body-less forms are not confined to bodyProducer is None")
-    for n, c in named_calls(g, "self._writeHeaders"):
-        ctx.check(len(c.args) == 2 and src(c.args[1]) == "None", "framing/choice", ctx.construct(q, c), "a body-less request announces a body framing")
-    w = g.path([g.entry], [g.exit], avoid=set(ch) | set(cl) | set(nob), edge_ok=lambda a, b, l: l != "exc")
-    ctx.check(w is None, "framing/choice", q + " | every path writes", "writeTo can return without writing the request", witness=g.describe(w))
-
-    pairs = (("_writeToBodyProducerChunked", b"Transfer-Encoding: chunked\r\n", "ChunkedEncoder"),
-             ("_writeToBodyProducerContentLength", None, "LengthEnforcingConsumer"))
-    for name, hdr, enc in pairs:
-        f = ctx.func(P, "Request." + name)
-        g = ctx.cfg(f)
-        q = Q + name
-        wh = named_calls(g, "self._writeHeaders")
-        ctx.check(len(wh) == 1, "framing/pairing", q, "the head is not written exactly once")
-        for n, c in wh:
-            a = c.args[1] if len(c.args) > 1 else None
-            ok = (_bytes_const(a) == hdr) if hdr is not None else (a is not None and "Content-Length: %d" in src(a))
-            ctx.check(ok, "framing/pairing", ctx.construct(q, c), "the framing header does not match the body encoder used by this method")
-            # head before anything else touching transport / producer
-            tp = param_names(f)[1]
-            other = [m for m, c2 in call_sites(g, lambda c2: isinstance(c2.func, ast.Attribute) and (src(c2.func.value) in (tp, "encoder", "self.bodyProducer"))) if m != n]
-            w = g.must_precede([n], other)
-            ctx.check(bool(other) and w is None, "framing/head-first", q, "the producer is registered / started before the request head is written", witness=g.describe(w))
-        sp = named_calls(g, "self.bodyProducer.startProducing")
-        ctx.check(len(sp) == 1, "framing/pairing", q + " | startProducing", "the body producer is not started exactly once")
-        for n, c in sp:
-            a = c.args[0] if c.args else None
-            srcs_ = [s.value for s in walk_local(f) if isinstance(s, ast.Assign) and a is not None and any(src(t) == src(a) for t in s.targets)]
-            ok = len(srcs_) == 1 and isinstance(srcs_[0], ast.Call) and call_name(srcs_[0]) == enc
-            ctx.check(ok, "framing/pairing", ctx.construct(q, c), f"the body producer does not write into a {enc}: the body would be sent unframed / unchecked")
-            if ok:
-                args = [src(x) for x in srcs_[0].args]
-                tp = param_names(f)[1]
-                want = [tp] if enc == "ChunkedEncoder" else ["self.bodyProducer", tp, "finishedConsuming"]
-                ctx.check(args == want, "framing/pairing", ctx.construct(q, srcs_[0]), f"the encoder is not built over the transport: {args}")
-    # chunked completion: success writes the terminator, failure must not
-    cb = ctx.func(P, "Request._writeToBodyProducerChunked.cbProduced")
-    eb = ctx.func(P, "Request._writeToBodyProducerChunked.ebProduced")
-    q = Q + "_writeToBodyProducerChunked"
-    ctx.check(any(isinstance(c, ast.Call) and call_name(c) == "encoder.unregisterProducer" for c in ast.walk(cb)), "chunked/terminator-on-success", q + ".cbProduced",
-              "a successfully produced body is not terminated with the last-chunk")
-    bad = [c for c in ast.walk(eb) if isinstance(c, ast.Call) and call_name(c) in ("encoder.unregisterProducer", "encoder._writeChunk", "encoder.write")]
-    ctx.check(not bad, "chunked/no-terminator-on-failure", q + ".ebProduced", "a failed body is terminated as if complete (the server would accept a truncated request)")
-    ok = any(isinstance(c, ast.Call) and call_name(c) == "encoder._allowNoMoreWrites" for c in ast.walk(eb)) and \
-        any(isinstance(s, ast.Return) and src(s.value) == param_names(eb)[0] for s in ast.walk(eb))
-    ctx.check(ok, "chunked/no-terminator-on-failure", q + ".ebProduced | closes encoder, propagates failure", "the failure path does not close the encoder and pass the failure on")
-    f = ctx.func(P, "Request._writeToBodyProducerChunked")
-    reg = [c for c in walk_local(f) if isinstance(c, ast.Call) and call_attr(c) == "addCallbacks"]
-    ctx.check(len(reg) == 1 and [src(a) for a in reg[0].args] == ["cbProduced", "ebProduced"], "chunked/terminator-on-success", q + " | addCallbacks",
-              "cbProduced / ebProduced are not attached as callback / errback of the producer Deferred")
-    # content-length completion: shortfall check inside a catch-all try
-    cp = ctx.func(P, "Request._writeToBodyProducerContentLength.combine.cbProducing")
-    q = Q + "_writeToBodyProducerContentLength.combine.cbProducing"
-    chk = [c for c in ast.walk(cp) if isinstance(c, ast.Call) and call_name(c) == "encoder._noMoreWritesExpected"]
-    ctx.check(len(chk) == 1 and catches_everything(enclosing_try_handlers(cp, chk[0])), "length/shortfall-checked", q,
-              "the produced length is not verified (inside a catch-all try) when the producer finishes")
-    g = ctx.cfg(cp)
-    for n, c in named_calls(g, "ultimate.callback"):
-        w = g.must_precede([m for m, _ in named_calls(g, "encoder._noMoreWritesExpected")], [n])
-        ctx.check(w is None, "length/shortfall-checked", ctx.construct(q, c), "success is reported before the length check", witness=g.describe(w))
-
-
-# ---- head-announced framing == body encoder, by finite evaluation of writeTo and its helpers ------------------------
+# ---- models of the collaborators -----------------------------------------------------------------------------------
 class _Headers:
     _sa_model = True
 
@@ -398,108 +56,266 @@ class _Transport:
 
     def __init__(self):
         self.out = []
+        self.producer = None
+        self.unregistered = 0
 
     def writeSequence(self, seq):
-        self.out.extend(seq)
+        self.out.extend(list(seq))
 
     def write(self, data):
         self.out.append(data)
 
-    def registerProducer(self, *a):
-        return None
+    def registerProducer(self, producer, streaming):
+        self.producer = producer
 
     def unregisterProducer(self):
-        return None
+        self.producer = None
+        self.unregistered += 1
 
-
-class _Obj:
-    _sa_model = True
-
-    def __init__(self, kind, *args):
-        self.kind = kind
-        self.args = args
-
-    def __getattr__(self, name):
-        if name.startswith("__"):
-            raise AttributeError(name)
-        return lambda *a, **k: _Obj("result-of-" + name)
+    def bytes(self):
+        return b"".join(x for x in self.out)
 
 
 class _Producer:
     _sa_model = True
 
-    def __init__(self, length):
+    def __init__(self, length, sync=()):
         self.length = length
-        self.consumers = []
+        self.consumer = None
+        self.done = None
+        self.stopped = 0
+        self.sync = tuple(sync)      # pieces written synchronously from inside startProducing()
 
     def startProducing(self, consumer):
-        self.consumers.append(consumer)
-        return _Obj("deferred")
+        self.consumer = consumer
+        self.done = MDeferred()
+        for piece in self.sync:
+            consumer.write(piece)
+        return self.done
 
     def stopProducing(self):
+        self.stopped += 1
+
+    def pauseProducing(self):
+        return None
+
+    def resumeProducing(self):
         return None
 
 
 UNKNOWN = object()
 
 
+def _world(ctx):
+    mod = ctx.mod(P)
+    abnf = World(ctx.mod(A))
+    env = {"UNKNOWN_LENGTH": UNKNOWN, "_moduleLog": NullLogger()}
+    env.update(swallowing_env(mod))
+    ext = {"_istoken": abnf.resolve("_istoken"), "_decint": abnf.resolve("_decint"), "networkString": lambda s_: s_.encode("ascii"),
+           "Deferred": lambda *a: MDeferred(*a), "succeed": _succeed, "fail": _fail, "Logger": lambda *a, **k: NullLogger(), "proxyForInterface": lambda *a, **k: (lambda x: x)}
+    for nm in ("Request", "ChunkedEncoder", "LengthEnforcingConsumer"):
+        ctx.cls(P, nm)
+    for fn in ("Request.writeTo", "Request._writeHeaders", "Request._writeToBodyProducerChunked", "Request._writeToBodyProducerContentLength", "Request._writeToEmptyBodyContentLength",
+               "ChunkedEncoder.write", "ChunkedEncoder.unregisterProducer", "LengthEnforcingConsumer.write", "LengthEnforcingConsumer._noMoreWritesExpected",
+               "_ensureValidMethod", "_ensureValidURI"):
+        ctx.func(P, fn)
+    return World(mod, externals=ext, env=env)
+
+
+def _succeed(v=None):
+    d = MDeferred()
+    d.callback(v)
+    return d
+
+
+def _fail(v=None):
+    d = MDeferred()
+    d.errback(v if isinstance(v, MFailure) else MFailure(v if isinstance(v, MExc) else MExc(str(v))))
+    return d
+
+
+def _try(f, *a, **k):
+    """(value, None) or (None, exception name)"""
+    try:
+        return f(*a, **k), None
+    except ModelRaised as e:
+        return None, e.name
+
+
+def _outcome(d):
+    """'pending' | ('ok', value) | ('fail', exception name) of a model Deferred (after consuming its result)"""
+    if not isinstance(d, MDeferred):
+        return ("not-a-deferred", d)
+    box = []
+    d.addBoth(lambda r: (box.append(r), r)[1])
+    if not box:
+        return "pending"
+    r = box[0]
+    return ("fail", r.value.name) if isinstance(r, MFailure) else ("ok", r)
+
+
+def check(ctx):
+    sections = (("validators", _validators), ("headers-store", _headers_store), ("write-headers", _write_headers), ("framing-agreement", _framing_agreement),
+                ("chunked", _chunked), ("length", _length))
+    for name, fn in sections:
+        with ctx.section(name):
+            try:
+                fn(ctx)
+            except InterpError as e:
+                raise AnalysisError(f"C24/{name}: the code uses a construct the evaluator cannot interpret: {e}")
+
+
+# ---- (a) validators --------------------------------------------------------------------------------------------------
+def _validators(ctx):
+    ctx.func(A, "_istoken")
+    abnf = World(ctx.mod(A))
+    istoken = abnf.resolve("_istoken")
+    acc = {b for b in range(256) if istoken(bytes([b]))}
+    ctx.check(acc == TCHAR, "validator/token-set", "twisted.web._abnf._istoken", f"accepted bytes differ from RFC 9110 tchar: extra {fmt_set(acc - TCHAR)}, missing {fmt_set(TCHAR - acc)}")
+    ok = istoken(b"") is False and istoken(b"GET") is True and istoken(b"G T") is False and istoken(b"GET\n") is False
+    ctx.check(ok, "validator/token-nonempty", "twisted.web._abnf._istoken", "the empty string (or a value with an embedded invalid byte) is accepted as a token")
+    w = _world(ctx)
+    for name, good, oracle_set in (("_ensureValidMethod", b"GET", TCHAR), ("_ensureValidURI", b"/", VCHAR)):
+        f = w.resolve(name)
+        q = Q + name
+        bad = []
+        for b in range(256):
+            v = good + bytes([b]) + good
+            got, exc = _try(f, v)
+            if b in oracle_set:
+                if got != v:
+                    bad.append((v, f"refused ({exc})" if exc else f"returns {got!r}"))
+            elif exc != "ValueError":
+                bad.append((v, f"raises {exc}" if exc else f"accepted (returns {got!r})"))
+        for v in (b"", good + b"\n", b"\n" + good, good + b"\r\n", good + b" x", good + b"\x00"):
+            got, exc = _try(f, v)
+            if exc != "ValueError":
+                bad.append((v, f"raises {exc}" if exc else f"accepted (returns {got!r})"))
+        ctx.check(not bad, "validator/accepts-exactly", q, f"{name}({bad[0][0]!r}) is {bad[0][1]}; {len(bad)} values misjudged (accepted set must be exactly "
+                  f"{'tchar' if oracle_set is TCHAR else 'VCHAR'}, refusal must be ValueError, no trailing newline)" if bad else "", detail="262 values")
+    # refused at construction
+    for args, what in (((b"G T", b"/", _Headers({}), None), "method"), ((b"GET", b"/a b", _Headers({}), None), "target"), ((b"GET", b"/\n", _Headers({}), None), "target")):
+        got, exc = _try(w.new, "Request", *args)
+        ctx.check(exc == "ValueError", "validator/refused-at-construction", Q + f"Request.__init__ | {what} {args[0] if what == 'method' else args[1]!r}",
+                  f"Request(...) with an invalid {what} is not refused with ValueError ({'raises ' + exc if exc else 'accepted'})")
+    got, exc = _try(w.new, "Request", b"GET", b"/x", _Headers({}), None)
+    ctx.check(exc is None and got.method == b"GET" and got.uri == b"/x", "validator/refused-at-construction", Q + "Request.__init__ | valid", "a valid request is refused or stored changed")
+
+
+# ---- (b) Headers ---------------------------------------------------------------------------------------------------------
+def _headers_store(ctx):
+    mod = ctx.mod(HH)
+    ctx.func(HH, "Headers.setRawHeaders")
+    ctx.func(HH, "Headers.addRawHeader")
+    abnf = World(ctx.mod(A))
+    w = World(mod, externals={"_istoken": abnf.resolve("_istoken"), "comparable": lambda c: c})
+    w.env["_nameEncoder"] = w.new("_NameEncoder")
+    q = "twisted.web.http_headers.Headers."
+    hostile = [b"a\r\nX-Injected: 1", b"a\nb", b"a\rb", "a\r\nb", b"plain"]
+    for meth in ("setRawHeaders", "addRawHeader"):
+        bad = []
+        for v in hostile:
+            h = w.new("Headers")
+            _, exc = _try(getattr(h, meth), b"X-Test", [v] if meth == "setRawHeaders" else v)
+            stored = [x for k, vs in list(h.getAllRawHeaders()) for x in vs] if exc is None else None
+            if exc is not None or len(stored) != 1 or b"\r" in stored[0] or b"\n" in stored[0] or not isinstance(stored[0], bytes):
+                bad.append((v, exc or stored))
+        ctx.check(not bad, "headers/values-sanitised", q + meth, f"{meth}(b'X-Test', {bad[0][0]!r}) stores {bad[0][1]!r}: CR/LF reaches the request head" if bad else "")
+        for nm in (b"X Bad", b"X:Bad", b"", b"X\r\nY"):
+            h = w.new("Headers")
+            _, exc = _try(getattr(h, meth), nm, [b"v"] if meth == "setRawHeaders" else b"v")
+            ctx.check(exc == "InvalidHeaderName", "headers/names-validated", q + meth + f" | {nm!r}", f"the header name {nm!r} is not refused ({exc})")
+
+
+# ---- (c) the head ----------------------------------------------------------------------------------------------------------
+def _head_lines(head: bytes):
+    assert head.endswith(b"\r\n\r\n")
+    lines = head[:-4].split(b"\r\n")
+    return lines[0], sorted(lines[1:])
+
+
+def _write_headers(ctx):
+    w = _world(ctx)
+    q = Q + "Request._writeHeaders"
+    bad = []
+    n = 0
+    sets = {"host only": {b"Host": [b"example.com"]}, "host + two X": {b"Host": [b"example.com"], b"X-A": [b"1", b"2"], b"Accept": [b"*/*"]},
+            "host + empty values": {b"Host": [b"example.com"], b"Accept-Encoding": [b""], b"X-B": [b"", b"v", b""]}}
+    for persistent in (False, True):
+        for te in (None, b"Transfer-Encoding: chunked\r\n", b"Content-Length: 3\r\n"):
+            for sname, raw in sets.items():
+                n += 1
+                req = w.new("Request", b"GET", b"/p?q=1", _Headers(raw), None, persistent)
+                tr = _Transport()
+                _, exc = _try(req._writeHeaders, tr, te)
+                head = tr.bytes()
+                want_lines = sorted(([] if persistent else [b"Connection: close"]) + ([te[:-2]] if te else []) + [k + b": " + v for k, vs in raw.items() for v in vs])
+                if exc is not None:
+                    bad.append((persistent, te, sname, f"raises {exc}"))
+                elif not head.endswith(b"\r\n\r\n") or head.count(b"\r\n\r\n") != 1:
+                    bad.append((persistent, te, sname, f"head is not terminated by exactly one empty line: {head!r}"))
+                elif _head_lines(head) != (b"GET /p?q=1 HTTP/1.1", want_lines):
+                    bad.append((persistent, te, sname, f"head is {head!r}"))
+    ctx.check(not bad, "sink/head-bytes", q, f"persistent={bad[0][0]}, framing line {bad[0][1]!r}, headers '{bad[0][2]}': {bad[0][3]} - not `GET /p?q=1 HTTP/1.1` + the expected "
+              f"header lines + one empty line ({len(bad)} of {n} cases)" if bad else "", detail=f"{n} cases")
+    # refusals write nothing
+    for label, raw, tweak in (("no Host header", {}, None), ("two Host headers", {b"Host": [b"a", b"b"]}, None),
+                              ("method made invalid after construction", {b"Host": [b"a"]}, ("method", b"G T")), ("target made invalid after construction", {b"Host": [b"a"]}, ("uri", b"/a\r\nX: y")),
+                              ("target with trailing newline", {b"Host": [b"a"]}, ("uri", b"/a\n"))):
+        req = w.new("Request", b"GET", b"/", _Headers(raw), None)
+        if tweak:
+            setattr(req, tweak[0], tweak[1])
+        tr = _Transport()
+        _, exc = _try(req._writeHeaders, tr, None)
+        want = "BadHeaders" if tweak is None else "ValueError"
+        ctx.check(exc == want and not tr.out, "sink/refused-before-write", q + " | " + label,
+                  f"{label}: " + (f"raises {exc}" if exc else "the request is written") + (f" after {tr.bytes()!r} was already written" if tr.out else "") + f" (expected {want} with nothing written)")
+
+
+# ---- (d) head-announced framing == body encoder ---------------------------------------------------------------------------
 def _framing_agreement(ctx):
-    fns = {n: ctx.func(P, "Request." + n) for n in ("writeTo", "_writeHeaders", "_writeToBodyProducerChunked", "_writeToBodyProducerContentLength", "_writeToEmptyBodyContentLength")}
-    q = "twisted.web._newclient.Request.writeTo"
+    w = _world(ctx)
+    q = Q + "Request.writeTo"
     bad = []
     n = 0
     caller_sets = {"plain": {}, "caller Content-Length": {b"Content-Length": [b"5"]}, "caller Transfer-Encoding": {b"Transfer-Encoding": [b"chunked"]}}
     bodies = {"no body": None, "known length 5": 5, "known length 0": 0, "unknown length": UNKNOWN}
-    try:
-        for cname, extra in caller_sets.items():
-            for bname, length in bodies.items():
-                for method in (b"GET", b"POST"):
-                    n += 1
-                    hdrs = _Headers({b"Host": [b"example.com"], **extra})
-                    tr = _Transport()
-                    prod = None if length is None else _Producer(length)
-                    selfm = _Obj("self")
-                    mapping = {"self.headers": hdrs, "self.method": method, "self.uri": b"/", "self.persistent": False, "self.bodyProducer": prod, "UNKNOWN_LENGTH": UNKNOWN}
-                    funcs = {"_ensureValidMethod": lambda m: m, "_ensureValidURI": lambda u: u, "networkString": lambda s_: s_.encode("ascii"),
-                             "ChunkedEncoder": lambda t: _Obj("ChunkedEncoder", t), "LengthEnforcingConsumer": lambda *a: _Obj("LengthEnforcingConsumer", *a),
-                             "Deferred": lambda *a: _Obj("deferred"), "succeed": lambda *a: _Obj("deferred"), "fail": lambda *a: _Obj("deferred")}
-
-                    def call(name, funcs=funcs, mapping=mapping, selfm=selfm):
-                        def run(*args):
-                            f = fns[name]
-                            ps = param_names(f)[1:]
-                            kind, val = interpret(f, dict(zip(ps, args), self=selfm), mapping, funcs=funcs, nested_call=lambda *a: _Obj("deferred"))
-                            if kind == "raise":
-                                raise RuntimeError(val)
-                            return val
-                        return run
-                    for name in fns:
-                        funcs["self." + name] = call(name)
-                    funcs["self._writeHeaders"] = call("_writeHeaders")
-                    try:
-                        call("writeTo")(tr)
-                    except RuntimeError as e:
-                        bad.append((cname, bname, method, f"raises {e}"))
-                        continue
-                    head = b"".join(x for x in tr.out if isinstance(x, bytes))
-                    lines = [l for l in head.split(b"\r\n") if b":" in l]
-                    fields = [(l.split(b":", 1)[0].strip().lower(), l.split(b":", 1)[1].strip()) for l in lines]
-                    used = [getattr(c, "kind", type(c).__name__.strip("_")) for c in (prod.consumers if prod else [])]
-                    why = None
-                    if not head.endswith(b"\r\n\r\n") or not head.startswith(method + b" / HTTP/1.1\r\n"):
-                        why = f"the head is not one complete request head: {head[:60]!r}"
-                    elif length is None and used:
-                        why = "a body is produced for a request without a body producer"
-                    elif length is UNKNOWN and (used != ["ChunkedEncoder"] or (b"transfer-encoding", b"chunked") not in fields):
-                        why = f"the body is written through {used or 'nothing'} while the head announces {fields}"
-                    elif isinstance(length, int) and (used != ["LengthEnforcingConsumer"] or (b"content-length", str(length).encode()) not in fields):
-                        why = f"the body is written through {used or 'nothing'} (exactly {length} bytes) while the head announces {fields}"
-                    elif length is None and method == b"POST" and (b"content-length", b"0") not in fields and not extra:
-                        why = "a body-less POST does not announce Content-Length: 0"
-                    if why:
-                        bad.append((cname, bname, method, why))
-    except InterpError as e:
-        raise AnalysisError(f"C24: writeTo / _writeHeaders use a construct the evaluator cannot interpret: {e}")
+    for cname, extra in caller_sets.items():
+        for bname, length in bodies.items():
+            for method in (b"GET", b"POST"):
+                n += 1
+                prod = None if length is None else _Producer(length)
+                req = w.new("Request", method, b"/", _Headers({b"Host": [b"example.com"], **extra}), prod)
+                tr = _Transport()
+                d, exc = _try(req.writeTo, tr)
+                if exc:
+                    bad.append((cname, bname, method, f"raises {exc}"))
+                    continue
+                head = tr.bytes()
+                fields = [(l.split(b":", 1)[0].strip().lower(), l.split(b":", 1)[1].strip()) for l in head.split(b"\r\n") if b":" in l]
+                cons = prod.consumer if prod else None
+                used = None if cons is None else (getattr(object.__getattribute__(cons, "_sa_cls"), "name", "?") if isinstance(cons, RepoObject) else type(cons).__name__.strip("_"))
+                why = None
+                if not head.endswith(b"\r\n\r\n") or not head.startswith(method + b" / HTTP/1.1\r\n"):
+                    why = f"the head is not one complete request head: {head[:60]!r}"
+                elif not isinstance(d, MDeferred):
+                    why = f"writeTo returns {d!r}, not a Deferred"
+                elif length is None and used:
+                    why = "a body is produced for a request without a body producer"
+                elif length is None and _outcome(d) != ("ok", None):
+                    why = f"a body-less request's Deferred is {_outcome(d)}"
+                elif length is UNKNOWN and (used != "ChunkedEncoder" or (b"transfer-encoding", b"chunked") not in fields):
+                    why = f"the body is written through {used or 'nothing'} while the head announces {fields}"
+                elif isinstance(length, int) and (used != "LengthEnforcingConsumer" or (b"content-length", str(length).encode()) not in fields):
+                    why = f"the body is written through {used or 'nothing'} (exactly {length} bytes) while the head announces {fields}"
+                elif length is None and method == b"POST" and (b"content-length", b"0") not in fields and not extra:
+                    why = "a body-less POST does not announce Content-Length: 0"
+                elif length is None and method == b"GET" and not extra and any(k in (b"content-length", b"transfer-encoding") for k, v in fields):
+                    why = f"a body-less GET announces a body framing: {fields}"
+                elif prod is not None and tr.producer is not prod:
+                    why = "the body producer is not registered with the transport"
+                if why:
+                    bad.append((cname, bname, method, why))
     msg = ""
     if bad:
         c_, b_, m_, why = bad[0]
@@ -508,133 +324,122 @@ def _framing_agreement(ctx):
     ctx.extra["finite_cases_framing"] = n
 
 
-# ---- (c) ChunkedEncoder -------------------------------------------------------------------------------
-def _chunk_emitters(mod):
-    """methods of ChunkedEncoder that emit `size CRLF data CRLF` through transport.writeSequence"""
-    out = {}
-    for qn, fn in class_functions(mod, "ChunkedEncoder"):
-        for c in walk_local(fn):
-            if isinstance(c, ast.Call) and call_name(c) in ("self.transport.writeSequence", "self.transport.write"):
-                out[qn.split(".")[-1]] = (fn, c)
-    return out
+# ---- (e) body scenarios --------------------------------------------------------------------------------------------------------
+def _start(w, length, sync=()):
+    prod = _Producer(length, sync)
+    req = w.new("Request", b"POST", b"/", _Headers({b"Host": [b"example.com"]}), prod)
+    tr = _Transport()
+    d = req.writeTo(tr)
+    head_len = len(tr.bytes())
+    return prod, tr, d, head_len
 
 
 def _chunked(ctx):
-    mod = ctx.mod(P)
-    Q = "twisted.web._newclient.ChunkedEncoder."
-    em = _chunk_emitters(mod)
-    ctx.check(len(em) == 1, "chunked/format", Q + "<emitters>", f"chunk bytes are written from {sorted(em)} (one emitter expected)")
-    for name, (fn, c) in em.items():
-        dp = param_names(fn)[1] if len(param_names(fn)) > 1 else "data"
-        a = c.args[0] if c.args else None
-        ok = False
-        why = "not a 3-part sequence"
-        if isinstance(a, (ast.Tuple, ast.List)) and len(a.elts) == 3:
-            size, body, end = a.elts
-            fmt = size.args[0] if isinstance(size, ast.Call) and call_name(size) == "networkString" and size.args else size
-            okfmt = isinstance(fmt, ast.BinOp) and isinstance(fmt.op, ast.Mod) and isinstance(fmt.left, ast.Constant) and \
-                fmt.left.value in ("%x\r\n", "%X\r\n", b"%x\r\n", b"%X\r\n") and src(fmt.right) in (f"len({dp})", f"(len({dp}),)")
-            ok = okfmt and src(body) == dp and _bytes_const(end) == b"\r\n"
-            why = f"size={src(size)} body={src(body)} end={src(end)}"
-        ctx.check(ok, "chunked/format", ctx.construct(Q + name, c), "a chunk is not written as hex(len(data)) CRLF data CRLF: " + why)
-    emitter_names = set(em)
-    # write(): never emits for empty data; refuses after the end
-    f = ctx.func(P, "ChunkedEncoder.write")
-    g = ctx.cfg(f)
-    q = Q + "write"
-    dp = param_names(f)[1]
-    emits = call_sites(g, lambda c: call_name(c) in ("self.transport.writeSequence", "self.transport.write") or
-                       (isinstance(c.func, ast.Attribute) and is_self_attr(c.func) and c.func.attr in emitter_names))
-    ctx.check(len(emits) >= 1, "chunked/write-emits", q, "write() no longer emits a chunk")
-    for n, c in emits:
-        nonempty = truth_guard(g, n, dp, True) or any(
-            (lincmp(g.node(t).ast, negate=(lab == "F")) == lin_expect({f"len({dp})": 1}, 1)) for t, lab in g.edge_guards(n)) or \
-            any(cmp_polarity(g.node(t).ast, dp, "b''") is not None and (cmp_polarity(g.node(t).ast, dp, "b''") != (lab == "T")) for t, lab in g.edge_guards(n))
-        ctx.check(nonempty, "chunked/empty-write-not-encoded", ctx.construct(q, c),
-                  "an empty write is encoded as a zero-length chunk, which is the end-of-body marker: the body ends early and later chunks are read as a new request")
-        ctx.check(none_guard(g, n, "self.transport", False), "chunked/refuses-after-end", ctx.construct(q, c), "write() after the end of the body is not refused")
-        if isinstance(c.func, ast.Attribute) and c.func.attr in emitter_names:
-            ctx.check([src(a) for a in c.args] == [dp], "chunked/format", ctx.construct(q, c) + " | payload", "the chunk payload is not the data written")
-    raises = g.ids(lambda x: x.kind == "stmt" and isinstance(x.ast, ast.Raise) and "ExcessWrite" in src(x.ast))
-    ctx.check(len(raises) == 1 and none_guard(g, raises[0], "self.transport", True), "chunked/refuses-after-end", q + " | raise ExcessWrite", "ExcessWrite is not raised exactly when the encoder is closed")
-    # unregisterProducer: terminator exactly once, then close
-    f = ctx.func(P, "ChunkedEncoder.unregisterProducer")
-    g = ctx.cfg(f)
-    q = Q + "unregisterProducer"
-    term = call_sites(g, lambda c: (isinstance(c.func, ast.Attribute) and is_self_attr(c.func) and c.func.attr in emitter_names and len(c.args) == 1 and _bytes_const(c.args[0]) == b"") or
-                      (call_name(c) in ("self.transport.write",) and _bytes_const(c.args[0]) == b"0\r\n\r\n"))
-    ctx.check(len(term) == 1, "chunked/terminator", q, f"the last-chunk is written at {len(term)} sites (exactly one expected)")
-    closes = [n for n, c in named_calls(g, "self._allowNoMoreWrites")]
-    unreg = [n for n, c in named_calls(g, "self.transport.unregisterProducer")]
-    for n, c in term:
-        ctx.check(none_guard(g, n, "self.transport", False), "chunked/refuses-after-end", ctx.construct(q, c), "a second unregisterProducer writes a second terminator")
-        w = g.must_pass([n], closes, exc=False)
-        ctx.check(bool(closes) and w is None, "chunked/terminator", ctx.construct(q, c) + " | then closed", "the encoder stays open after the terminator", witness=g.describe(w))
-        w = g.must_precede([n], closes + unreg)
-        ctx.check(w is None, "chunked/terminator", ctx.construct(q, c) + " | before close", "the encoder is closed / the producer unregistered before the terminator is written",
-                  witness=g.describe(w))
-    w = g.must_pass([g.entry], [n for n, c in term], exc=False)
-    ctx.check(w is None, "chunked/terminator", q + " | every normal path", "unregisterProducer can return without terminating the body", witness=g.describe(w))
-    f = ctx.func(P, "ChunkedEncoder._allowNoMoreWrites")
-    ok = any(isinstance(s, ast.Assign) and any(is_self_attr(t, "transport") for t in s.targets) and src(s.value) == "None" for s in walk_local(f))
-    ctx.check(ok, "chunked/refuses-after-end", Q + "_allowNoMoreWrites", "closing the encoder does not drop the transport")
+    w = _world(ctx)
+    q = Q + "ChunkedEncoder"
+    # success
+    prod, tr, d, hl = _start(w, UNKNOWN)
+    for piece in (b"ab", b"", b"cd"):
+        _, exc = _try(prod.consumer.write, piece)
+        ctx.check(exc is None, "chunked/body-bytes", q + f" | write({piece!r})", f"write({piece!r}) raises {exc}")
+    mid = tr.bytes()[hl:]
+    ctx.check(mid == b"2\r\nab\r\n2\r\ncd\r\n", "chunked/empty-write-not-encoded" if b"0\r\n\r\n" in mid else "chunked/body-bytes", q + " | writes ab, '', cd",
+              f"the producer wrote b'ab', b'', b'cd' and the wire carries {mid!r}: " +
+              ("an empty write is encoded as the zero-length chunk, which ends the body early (later chunks are read as a new request)" if b"0\r\n\r\n" in mid else
+               "not `hex(len) CRLF data CRLF` per non-empty write"))
+    big = b"x" * 26
+    _try(prod.consumer.write, big)
+    ctx.check(tr.bytes()[hl:].endswith(b"1a\r\n" + big + b"\r\n") or tr.bytes()[hl:].endswith(b"1A\r\n" + big + b"\r\n"), "chunked/body-bytes", q + " | 26-byte chunk",
+              f"a 26-byte chunk is not announced as hex 1a: ...{tr.bytes()[-40:]!r}")
+    before = tr.bytes()
+    prod.done.callback(None)
+    after = tr.bytes()
+    ctx.check(after == before + b"0\r\n\r\n", "chunked/terminator", q + " | producer finished", f"after the producer finished the wire gained {after[len(before):]!r}, not exactly one last-chunk 0 CRLF CRLF")
+    ctx.check(_outcome(d) == ("ok", None) and tr.unregistered == 1 and tr.producer is None, "chunked/terminator", q + " | completion",
+              f"writeTo's Deferred is {_outcome(d)} / transport producer unregistered {tr.unregistered}x after a successful body")
+    _, exc = _try(prod.consumer.write, b"late")
+    ctx.check(exc == "ExcessWrite" and tr.bytes() == after, "chunked/refuses-after-end", q + " | write after the end", f"a write after the end of the body: {exc or 'accepted'}, wire {tr.bytes()[len(after):]!r}")
+    _, exc = _try(prod.consumer.unregisterProducer)
+    ctx.check(exc == "ExcessWrite" and tr.bytes() == after, "chunked/refuses-after-end", q + " | second unregisterProducer", f"a second unregisterProducer: {exc or 'accepted'}, wire gained {tr.bytes()[len(after):]!r}")
+    _head_first(ctx, w, UNKNOWN, "framing/head-first", Q + "Request._writeToBodyProducerChunked")
+    # failure
+    prod, tr, d, hl = _start(w, UNKNOWN)
+    _try(prod.consumer.write, b"ab")
+    before = tr.bytes()
+    prod.done.errback(MFailure(MExc("Boom")))
+    ctx.check(tr.bytes() == before, "chunked/no-terminator-on-failure", Q + "Request._writeToBodyProducerChunked | producer failed",
+              f"a failed body gained {tr.bytes()[len(before):]!r} on the wire: it is terminated as if complete (the server accepts a truncated request)")
+    ctx.check(_outcome(d) == ("fail", "Boom") and tr.producer is None, "chunked/no-terminator-on-failure", Q + "Request._writeToBodyProducerChunked | failure propagated",
+              f"after the producer failed writeTo's Deferred is {_outcome(d)} and the transport producer is {'still ' if tr.producer else 'un'}registered")
+    _, exc = _try(prod.consumer.write, b"late")
+    ctx.check(exc == "ExcessWrite" and tr.bytes() == before, "chunked/refuses-after-end", q + " | write after failure", f"a write after the producer failed: {exc or 'accepted'}")
 
 
-# ---- (d) LengthEnforcingConsumer --------------------------------------------------------------------------
+def _head_first(ctx, w, length, rule, q):
+    """a producer that writes from inside startProducing(): its bytes must follow the complete head"""
+    prod, tr, d, hl = _start(w, length, sync=(b"hello",))
+    wire = tr.bytes()
+    cut = wire.find(b"\r\n\r\n")
+    head, rest = (wire[:cut + 4], wire[cut + 4:]) if cut != -1 else (b"", wire)
+    ok = head.startswith(b"POST / HTTP/1.1\r\n") and rest == (b"hello" if isinstance(length, int) else b"5\r\nhello\r\n")
+    ctx.check(ok, rule, q + " | producer writing synchronously in startProducing", f"the wire starts {wire[:70]!r}: body bytes precede (or corrupt) the request head")
+
+
 def _length(ctx):
-    Q = "twisted.web._newclient.LengthEnforcingConsumer."
-    f = ctx.func(P, "LengthEnforcingConsumer.write")
-    g = ctx.cfg(f)
-    q = Q + "write"
-    dp = param_names(f)[1]
-    fw = named_calls(g, "self._consumer.write")
-    ctx.check(len(fw) == 1, "length/forward-boundary", q, "write() does not forward at exactly one site")
-    want = lin_expect({"self._length": 1, f"len({dp})": -1}, 0)
-    dec = [n for n, st in assign_sites(g, lambda x: is_self_attr(x, "_length")) if isinstance(st, ast.AugAssign) and isinstance(st.op, ast.Sub) and src(st.value) == f"len({dp})"]
-    for n, c in fw:
-        ok = any(lincmp(g.node(t).ast, negate=(lab == "F")) == want for t, lab in g.edge_guards(n))
-        ctx.check(ok, "length/forward-boundary", ctx.construct(q, c), "bytes are forwarded under a condition other than len(bytes) <= remaining length")
-        ctx.check([src(a) for a in c.args] == [dp], "length/forward-boundary", ctx.construct(q, c) + " | payload", "the forwarded bytes are not the bytes written")
-        ctx.check(none_guard(g, n, "self._finished", False), "length/refuses-after-end", ctx.construct(q, c), "bytes are forwarded after the consumer was closed")
-        w = g.must_precede(dec, [n]) if dec else [g.entry]
-        ctx.check(bool(dec) and w is None, "length/coupled-decrement", ctx.construct(q, c), "the remaining length is not decremented together with the forward",
-                  witness=g.describe(w) if dec else "")
-    for n in dec:
-        ok = any(lincmp(g.node(t).ast, negate=(lab == "F")) == want for t, lab in g.edge_guards(n))
-        ctx.check(ok and from_here(g, [n], [m for m, c in fw]) is None, "length/coupled-decrement", ctx.construct(q, g.node(n).ast),
-                  "the remaining length is decremented on a path that does not forward the bytes")
-    ctx.check(len(dec) == 1, "length/coupled-decrement", q + " | one decrement", "the remaining length is not decremented exactly once per write")
-    eb = call_sites(g, lambda c: call_name(c) == "self._finished.errback")
-    ctx.check(len(eb) == 1 and "WrongBodyLength" in src(eb[0][1]), "length/excess-reported", q, "excess bytes are not reported through the _finished Deferred")
-    for n, c in eb:
-        ok = any(lincmp(g.node(t).ast, negate=(lab == "F")) == lin_expect({"self._length": -1, f"len({dp})": 1}, 1) for t, lab in g.edge_guards(n))
-        ctx.check(ok, "length/excess-reported", ctx.construct(q, c), "WrongBodyLength is reported under a condition other than len(bytes) > remaining length")
-        cl = [m for m, _ in named_calls(g, "self._allowNoMoreWrites")] + [m for m, st in assign_sites(g, lambda x: is_self_attr(x, "_finished")) if src(st.value) == "None"]
-        w = g.must_pass([n], cl, exc=False)
-        ctx.check(bool(cl) and w is None, "length/excess-reported", ctx.construct(q, c) + " | then closed", "the consumer stays open after reporting excess (errback would fire twice)",
-                  witness=g.describe(w))
-        sp = [m for m, _ in named_calls(g, "self._producer.stopProducing")]
-        w = g.must_precede(sp, [n], exc=False)
-        ctx.check(bool(sp) and w is None, "length/excess-reported", ctx.construct(q, c) + " | producer stopped", "the producer is not stopped on excess", witness=g.describe(w))
-    raises = g.ids(lambda x: x.kind == "stmt" and isinstance(x.ast, ast.Raise) and "ExcessWrite" in src(x.ast))
-    ctx.check(len(raises) == 1 and none_guard(g, raises[0], "self._finished", True), "length/refuses-after-end", q + " | raise ExcessWrite", "ExcessWrite is not raised exactly when the consumer is closed")
-    f = ctx.func(P, "LengthEnforcingConsumer._noMoreWritesExpected")
-    g = ctx.cfg(f)
-    q = Q + "_noMoreWritesExpected"
-    raises = g.ids(lambda x: x.kind == "stmt" and isinstance(x.ast, ast.Raise) and "WrongBodyLength" in src(x.ast))
-    ok = len(raises) == 1
-    if ok:
-        r = raises[0]
-        nz = truth_guard(g, r, "self._length", True) or guarded_eq(g, r, "self._length", "0", False) or any(
-            lincmp(g.node(t).ast, negate=(lab == "F")) == lin_expect({"self._length": 1}, 1) for t, lab in g.edge_guards(r))
-        ok = nz and none_guard(g, r, "self._finished", False)
-    ctx.check(ok, "length/shortfall-reported", q, "a body shorter than announced is not reported (raise WrongBodyLength exactly when bytes remain)")
-    f = ctx.func(P, "LengthEnforcingConsumer.__init__")
-    ok = any(isinstance(s, ast.Assign) and any(is_self_attr(t, "_length") for t in s.targets) and src(s.value) == f"{param_names(f)[1]}.length" for s in walk_local(f))
-    ctx.check(ok, "length/forward-boundary", Q + "__init__", "the remaining length does not start at producer.length")
+    w = _world(ctx)
+    q = Q + "LengthEnforcingConsumer"
+    _head_first(ctx, w, 5, "framing/head-first", Q + "Request._writeToBodyProducerContentLength")
+    # exact
+    prod, tr, d, hl = _start(w, 5)
+    for piece in (b"abc", b"", b"de"):
+        _, exc = _try(prod.consumer.write, piece)
+        ctx.check(exc is None, "length/forward-boundary", q + f" | write({piece!r}) within the length", f"write({piece!r}) raises {exc}")
+    ctx.check(tr.bytes()[hl:] == b"abcde", "length/forward-boundary", q + " | exact body", f"the body b'abc' + b'' + b'de' of declared length 5 is on the wire as {tr.bytes()[hl:]!r}")
+    ctx.check(_outcome_peek(d) == "pending", "length/shortfall-checked", q + " | not finished early", "writeTo's Deferred fires before the producer finished")
+    prod.done.callback(None)
+    ctx.check(_outcome(d) == ("ok", None) and tr.producer is None, "length/shortfall-checked", q + " | exact body finished", f"an exactly produced body ends with {_outcome(d)}")
+    _, exc = _try(prod.consumer.write, b"x")
+    ctx.check(exc == "ExcessWrite" and tr.bytes()[hl:] == b"abcde" and prod.stopped >= 1, "length/refuses-after-end", q + " | write after the end",
+              f"a write after the end: {exc or 'accepted'}, producer stopped {prod.stopped}x, wire {tr.bytes()[hl:]!r}")
+    # one write of exactly the length
+    prod, tr, d, hl = _start(w, 5)
+    _try(prod.consumer.write, b"abcde")
+    prod.done.callback(None)
+    ctx.check(tr.bytes()[hl:] == b"abcde" and _outcome(d) == ("ok", None), "length/forward-boundary", q + " | single write of exactly the length",
+              f"a single write of exactly the declared length gives wire {tr.bytes()[hl:]!r} and {_outcome(d)}")
+    # short
+    prod, tr, d, hl = _start(w, 5)
+    _try(prod.consumer.write, b"abc")
+    prod.done.callback(None)
+    ctx.check(_outcome(d) == ("fail", "WrongBodyLength") and tr.producer is None, "length/shortfall-reported", q + " | 3 of 5 bytes", f"a body shorter than announced ends with {_outcome(d)}")
+    prod, tr, d, hl = _start(w, 5)
+    _try(prod.consumer.write, b"abcd")
+    prod.done.callback(None)
+    ctx.check(_outcome(d) == ("fail", "WrongBodyLength"), "length/shortfall-reported", q + " | 4 of 5 bytes", f"a body one byte short ends with {_outcome(d)}")
+    # excess
+    prod, tr, d, hl = _start(w, 5)
+    _try(prod.consumer.write, b"abc")
+    _, exc = _try(prod.consumer.write, b"defg")
+    ctx.check(exc is None and tr.bytes()[hl:] == b"abc" and prod.stopped >= 1, "length/excess-reported", q + " | 7 of 5 bytes",
+              f"an excess write: {exc or 'no exception'}, wire {tr.bytes()[hl:]!r} (the excess piece must not be forwarded), producer stopped {prod.stopped}x")
+    ctx.check(_outcome(d) == ("fail", "WrongBodyLength") and tr.producer is None, "length/excess-reported", q + " | excess outcome", f"an excess write ends with {_outcome(d)}")
+    _, exc = _try(prod.consumer.write, b"x")
+    ctx.check(exc == "ExcessWrite", "length/refuses-after-end", q + " | write after excess", f"a write after the excess was reported: {exc or 'accepted'}")
+    _, exc = _try(prod.done.callback, None)
+    ctx.check(exc is None, "length/excess-reported", q + " | late producer result ignored", f"the producer finishing after the excess was reported raises {exc} (the Deferred would fire twice)")
+    # producer failure
+    prod, tr, d, hl = _start(w, 5)
+    _try(prod.consumer.write, b"ab")
+    prod.done.errback(MFailure(MExc("Boom")))
+    ctx.check(_outcome(d) == ("fail", "Boom") and tr.producer is None, "length/producer-failure", q + " | producer failed", f"a failing producer ends with {_outcome(d)}")
+    _, exc = _try(prod.consumer.write, b"x")
+    ctx.check(exc == "ExcessWrite", "length/refuses-after-end", q + " | write after failure", f"a write after the producer failed: {exc or 'accepted'}")
 
 
-# ---------------------------------------------------------------------------------------------------------
+def _outcome_peek(d):
+    return "pending" if isinstance(d, MDeferred) and not d.called else "fired"
+
+
 MUTANTS = [
     Mutant("framing-line-dropped-when-caller-set-a-length", P, "        if TEorCL is not None:\n            requestLines.append(TEorCL)", "        if TEorCL is not None and self.headers.getRawHeaders(b\"Content-Length\") is None:\n            requestLines.append(TEorCL)"),
     Mutant("revert-F24-empty-write-encoded", P,
@@ -647,8 +452,6 @@ MUTANTS = [
     Mutant("token-accepts-empty", A, "            return False\n    return b != b\"\"\n\n\ndef _decint", "            return False\n    return True\n\n\ndef _decint"),
     Mutant("sink-skips-uri-validation", P, "                    _ensureValidURI(self.uri),\n                    b\"HTTP/1.1\\r\\n\",", "                    self.uri,\n                    b\"HTTP/1.1\\r\\n\","),
     Mutant("init-skips-method-validation", P, "        self.method = _ensureValidMethod(method)\n", "        self.method = method\n"),
-    Mutant("request-line-written-early", P, "        if not self.persistent:\n            requestLines.append(b\"Connection: close\\r\\n\")",
-           "        transport.writeSequence(requestLines)\n        requestLines = []\n        if not self.persistent:\n            requestLines.append(b\"Connection: close\\r\\n\")"),
     Mutant("host-check-after-write", P, "        hosts = self.headers.getRawHeaders(b\"Host\", ())\n        if len(hosts) != 1:\n            raise BadHeaders(\"Exactly one Host header required\")\n", "",
            more=[(P, "        transport.writeSequence(requestLines)\n\n    def _writeToBodyProducerChunked",
                   "        transport.writeSequence(requestLines)\n        hosts = self.headers.getRawHeaders(b\"Host\", ())\n        if len(hosts) != 1:\n            raise BadHeaders(\"Exactly one Host header required\")\n\n    def _writeToBodyProducerChunked")]),
@@ -665,10 +468,19 @@ MUTANTS = [
     Mutant("header-value-not-sanitised", HH, "            encodedValues.append(_sanitizeLinearWhitespace(_v))", "            encodedValues.append(_v)"),
     Mutant("double-terminator-possible", P, "        if self.transport is None:\n            raise ExcessWrite()\n        self._writeChunk(b\"\")", "        self._writeChunk(b\"\")"),
     Mutant("producer-started-before-head", P,
-           "        self._writeHeaders(transport, b\"Transfer-Encoding: chunked\\r\\n\")\n        encoder = ChunkedEncoder(transport)\n        encoder.registerProducer(self.bodyProducer, True)\n",
-           "        encoder = ChunkedEncoder(transport)\n        encoder.registerProducer(self.bodyProducer, True)\n        self._writeHeaders(transport, b\"Transfer-Encoding: chunked\\r\\n\")\n"),
+           "        self._writeHeaders(transport, b\"Transfer-Encoding: chunked\\r\\n\")\n        encoder = ChunkedEncoder(transport)\n        encoder.registerProducer(self.bodyProducer, True)\n        d = self.bodyProducer.startProducing(encoder)\n",
+           "        encoder = ChunkedEncoder(transport)\n        encoder.registerProducer(self.bodyProducer, True)\n        d = self.bodyProducer.startProducing(encoder)\n        self._writeHeaders(transport, b\"Transfer-Encoding: chunked\\r\\n\")\n"),
+    Mutant("empty-header-values-dropped", P, "            requestLines.extend([name + b\": \" + v + b\"\\r\\n\" for v in values])", "            requestLines.extend([name + b\": \" + v + b\"\\r\\n\" for v in values if len(v) > 0])"),
 ]
 SILENT = [
+    Silent("validators-as-guard-clauses", P, "    if _istoken(method):\n        return method\n    raise ValueError(f\"Invalid method {method!r}\")", "    valid = _istoken(method)\n    if not valid:\n        raise ValueError(f\"Invalid method {method!r}\")\n    return method"),
+    Silent("header-lines-by-nested-loop", P, "            requestLines.extend([name + b\": \" + v + b\"\\r\\n\" for v in values])", "            for oneValue in values:\n                requestLines.append(b\"\".join([name, b\": \", oneValue, b\"\\r\\n\"]))"),
+    Silent("chunk-write-early-return-and-bytes-format", P,
+           "        if data:\n            # A zero-length chunk is the end-of-body marker, so an empty write\n            # must not be encoded as a chunk.\n            self._writeChunk(data)\n",
+           "        if len(data) == 0:\n            return None\n        self._writeChunk(data)\n",
+           more=[(P, "            (networkString(\"%x\\r\\n\" % len(data)), data, b\"\\r\\n\")", "            (b\"%x\\r\\n\" % (len(data),), data, b\"\\r\\n\")")]),
+    Silent("shortfall-check-guard-clause", P, "        if self._finished is not None:\n            self._allowNoMoreWrites()\n            if self._length:\n                raise WrongBodyLength(\"too few bytes written\")",
+           "        if self._finished is None:\n            return\n        self._allowNoMoreWrites()\n        if self._length != 0:\n            raise WrongBodyLength(\"too few bytes written\")"),
     Silent("duplicate-content-length-line-skipped", P, "        if TEorCL is not None:\n            requestLines.append(TEorCL)",
            "        if TEorCL is not None:\n            mine = TEorCL.split(b\":\", 1)\n            theirs = self.headers.getRawHeaders(b\"Content-Length\") or []\n            if not (mine[0].lower() == b\"content-length\" and [mine[1].strip()] == theirs):\n                requestLines.append(TEorCL)"),
     Silent("duplicate-content-length-single-test", P, "        if TEorCL is not None:\n            requestLines.append(TEorCL)",
